@@ -138,7 +138,27 @@ theorem total (hash : Hash) (bs : Bytes) :
   | none => exact Or.inr rfl
   | some m => exact Or.inl ⟨m, rfl⟩
 
-/-! ## the read loop -/
+/-! ## the read loop
+
+`handleStream` interprets the tables of GS/Generated/StreamLoop.lean (regenerated from
+handleNewStream). The next five equations evaluate it on the current tables; everything below is
+proved from them, so a change of the loop (no Reset, no ReceiveError, another order, something done on
+EOF, no Close) makes them -- and with them every `stream_machine` theorem -- fail. -/
+
+theorem hs_nil : handleStream [] = [] := rfl
+theorem hs_msg (m : Msg) (rest : List Outcome) :
+    handleStream (.msg m :: rest) = .deliver m :: handleStream rest := rfl
+theorem hs_msgPanic (m : Msg) (rest : List Outcome) :
+    handleStream (.msgPanic m :: rest) = [.deliver m, .reset, .receiveError, .close] := rfl
+theorem hs_eof (rest : List Outcome) : handleStream (.eof :: rest) = [.close] := rfl
+theorem hs_error (rest : List Outcome) :
+    handleStream (.error :: rest) = [.reset, .receiveError, .close] := rfl
+theorem hs_panic (rest : List Outcome) :
+    handleStream (.panic :: rest) = [.reset, .receiveError, .close] := rfl
+
+/-- the end-of-stream test of the loop is the identity comparison with io.EOF (the translator accepts
+nothing else): only the decoder's bare `eof` outcome ends a stream silently -/
+theorem eof_test_is_identity : GS.Generated.StreamLoop.eofTestIsIdentity = true := rfl
 
 def isDeliver : Event → Bool
   | .deliver _ => true
@@ -179,24 +199,24 @@ theorem stream_machine (os : List Outcome) :
   induction os with
   | nil => rfl
   | cons o rest ih =>
-    cases o <;> simp [handleStream, goodPrefix, firstStop, ih]
+    cases o <;> simp [hs_msg, hs_msgPanic, hs_eof, hs_error, hs_panic, goodPrefix, firstStop, ih]
 
 /-- after a reset / ReceiveError nothing is delivered -/
 theorem stream_machine_nothing_after_error (os : List Outcome) (pre post : List Event)
     (h : handleStream os = pre ++ Event.receiveError :: post) : post = [.close] ∧
     (∀ e ∈ post, isDeliver e = false) := by
   induction os generalizing pre with
-  | nil => cases pre <;> simp [handleStream] at h
+  | nil => cases pre <;> simp [hs_nil] at h
   | cons o rest ih =>
     cases o with
     | msg m =>
       cases pre with
-      | nil => simp [handleStream] at h
+      | nil => simp [hs_msg] at h
       | cons e pre' =>
-        simp only [handleStream, List.cons_append, List.cons.injEq] at h
+        simp only [hs_msg, List.cons_append, List.cons.injEq] at h
         exact ih pre' h.2
     | msgPanic m =>
-      simp only [handleStream] at h
+      simp only [hs_msgPanic] at h
       match pre, h with
       | [_, _], h => simp at h; obtain ⟨_, _, h3⟩ := h; subst h3; simp [isDeliver]
       | [], h => simp at h
@@ -204,20 +224,20 @@ theorem stream_machine_nothing_after_error (os : List Outcome) (pre post : List 
       | [_, _, _], h => simp at h
       | _ :: _ :: _ :: _ :: _, h => simp at h
     | eof =>
-      simp only [handleStream] at h
+      simp only [hs_eof] at h
       match pre, h with
       | [], h => simp at h
       | [_], h => simp at h
       | _ :: _ :: _, h => simp at h
     | error =>
-      simp only [handleStream] at h
+      simp only [hs_error] at h
       match pre, h with
       | [_], h => simp at h; obtain ⟨_, h3⟩ := h; subst h3; simp [isDeliver]
       | [], h => simp at h
       | [_, _], h => simp at h
       | _ :: _ :: _ :: _, h => simp at h
     | panic =>
-      simp only [handleStream] at h
+      simp only [hs_panic] at h
       match pre, h with
       | [_], h => simp at h; obtain ⟨_, h3⟩ := h; subst h3; simp [isDeliver]
       | [], h => simp at h
@@ -231,9 +251,9 @@ theorem stream_machine_error_count (os : List Outcome) :
     ((handleStream os).filter (fun e => match e with | .reset => true | _ => false)).length =
       (match firstStop os with | some o => if failed o then 1 else 0 | none => 0) := by
   induction os with
-  | nil => simp [handleStream, firstStop]
+  | nil => simp [hs_nil, firstStop]
   | cons o rest ih =>
-    cases o <;> simp [handleStream, firstStop, failed, ih]
+    cases o <;> simp [hs_msg, hs_msgPanic, hs_eof, hs_error, hs_panic, firstStop, failed, ih]
 
 /-- a complete byte stream (no panics): the delivered messages are exactly the ones `decodeStream`
 yields, each satisfying `keys`, and the stream is reset with one ReceiveError iff it did not end
@@ -247,8 +267,8 @@ theorem stream_machine_bytes (hash : Hash) (bs : Bytes) :
   obtain ⟨ms, e⟩ := r
   simp only
   induction ms with
-  | nil => cases e <;> simp [handleStream]
-  | cons m ms ih => simp [handleStream, ih]
+  | nil => cases e <;> simp [hs_eof, hs_error]
+  | cons m ms ih => simp [hs_msg, ih]
 
 /-! non-vacuity: a concrete stream -/
 example : handleStream [.msg {}, .msg {}, .error, .msg {}] =
